@@ -1,6 +1,1059 @@
+(** Lemmas for C13 (model/Placeholder.v).  The statements used by props/C13.v are at the
+    end of each section; everything is generic in the tables [cfg]. *)
+From Coq Require Import Permutation Sorted FinFun.
 From V.lib Require Import Prelude.
 From V.gen Require Import GenC13.
 From V.model Require Import Placeholder.
 
 Lemma no_unmodelled : n_unmodelled = 0%nat.
 Proof. vm_compute. reflexivity. Qed.
+
+(** * Decimal rendering is injective *)
+Lemma dec_value_snoc ds d : dec_value (ds ++ [d]) = (dec_value ds * 10 + (d - 48))%N.
+Proof. unfold dec_value. rewrite fold_left_app. reflexivity. Qed.
+
+Lemma dec_digits_fuel_spec : forall f n acc, (n < 2 ^ N.of_nat f)%N ->
+  exists ds, dec_digits_fuel f n acc = ds ++ acc /\ dec_value ds = n.
+Proof.
+  induction f as [|f IH]; intros n acc Hn.
+  - simpl in Hn. exists []. split; [reflexivity|]. unfold dec_value; simpl. lia.
+  - cbn [dec_digits_fuel]. destruct (N.ltb_spec n 10) as [Hlt|Hge].
+    + exists [(48 + n mod 10)%N]. split; [reflexivity|].
+      unfold dec_value; cbn [fold_left]. rewrite N.mod_small by lia. lia.
+    + assert (Hdiv : (n / 10 < 2 ^ N.of_nat f)%N).
+      { rewrite Nat2N.inj_succ, N.pow_succ_r' in Hn.
+        apply N.div_lt_upper_bound; [lia|]. clear - Hn. set (X := (2 ^ N.of_nat f)%N) in *. clearbody X. lia. }
+      destruct (IH (n / 10)%N ((48 + n mod 10)%N :: acc) Hdiv) as [ds [E V]].
+      exists (ds ++ [(48 + n mod 10)%N]). split.
+      * rewrite E, <- app_assoc. reflexivity.
+      * rewrite dec_value_snoc, V.
+        pose proof (N.div_mod n 10 ltac:(lia)) as H. clear - H.
+        set (q := (n / 10)%N) in *. set (r := (n mod 10)%N) in *. clearbody q r. lia.
+Qed.
+
+Lemma dec_value_dec_of_N n : dec_value (dec_of_N n) = n.
+Proof.
+  unfold dec_of_N.
+  destruct (dec_digits_fuel_spec (S (N.to_nat (N.size n))) n []) as [ds [E V]].
+  - rewrite Nat2N.inj_succ, N2Nat.id, N.pow_succ_r'.
+    pose proof (N.size_gt n). lia.
+  - rewrite E, app_nil_r. exact V.
+Qed.
+
+Lemma dec_of_N_inj a b : dec_of_N a = dec_of_N b -> a = b.
+Proof. intros H. rewrite <- (dec_value_dec_of_N a), <- (dec_value_dec_of_N b), H. reflexivity. Qed.
+
+Lemma cand_inj base a b : cand base a = cand base b -> a = b.
+Proof.
+  unfold cand. intros H. apply app_inv_head in H. apply app_inv_head in H.
+  apply dec_of_N_inj; exact H.
+Qed.
+
+(** * The naming loop *)
+Lemma next_num_some : forall f base n names k, next_num f base n names = Some k ->
+  ~ In (cand base k) names /\ (n <= k)%N /\
+  forall j, (n <= j < k)%N -> In (cand base j) names.
+Proof.
+  induction f as [|f IH]; intros base n names k H; [discriminate|].
+  cbn [next_num] in H. destruct (mem_str (cand base n) names) eqn:E.
+  - apply IH in H. destruct H as [H1 [H2 H3]]. split; [exact H1|]. split; [lia|].
+    intros j Hj. destruct (N.eq_dec j n) as [->|Hne].
+    + apply mem_str_In; exact E.
+    + apply H3; lia.
+  - inversion H; subst k. split.
+    + intros Hin. apply mem_str_In in Hin. congruence.
+    + split; [lia|]. intros j Hj; lia.
+Qed.
+
+Lemma next_num_none : forall f base n names, next_num f base n names = None ->
+  forall j, (j < f)%nat -> In (cand base (n + N.of_nat j)) names.
+Proof.
+  induction f as [|f IH]; intros base n names H j Hj; [lia|].
+  cbn [next_num] in H. destruct (mem_str (cand base n) names) eqn:E; [|discriminate].
+  destruct j as [|j].
+  - rewrite N.add_0_r. apply mem_str_In; exact E.
+  - replace (n + N.of_nat (S j))%N with (n + 1 + N.of_nat j)%N by lia.
+    apply IH; [exact H | lia].
+Qed.
+
+(** the fuel [S (length names)] always suffices (pigeonhole over distinct candidates) *)
+Lemma next_num_fuel base n names : next_num (S (length names)) base n names <> None.
+Proof.
+  intros H.
+  pose proof (next_num_none _ _ _ _ H) as Hall.
+  set (g := fun j : nat => cand base (n + N.of_nat j)).
+  assert (Hinj : Injective g).
+  { intros a b Hab. unfold g in Hab. apply cand_inj in Hab. lia. }
+  assert (Hnd : NoDup (map g (seq 0 (S (length names))))).
+  { apply Injective_map_NoDup; [exact Hinj | apply seq_NoDup]. }
+  assert (Hincl : incl (map g (seq 0 (S (length names)))) names).
+  { intros x Hx. apply in_map_iff in Hx. destruct Hx as [j [<- Hj]].
+    apply in_seq in Hj. apply Hall. lia. }
+  pose proof (NoDup_incl_length Hnd Hincl) as Hlen.
+  rewrite map_length, seq_length in Hlen. lia.
+Qed.
+
+Lemma dict_get_ok {B} k (l : list (N * B)) v : dict_get k l = Ok v <-> assoc k l = Some v.
+Proof. unfold dict_get. destruct (assoc k l); split; intros H; inversion H; reflexivity. Qed.
+
+Lemma dict_get_err {B} k (l : list (N * B)) e : dict_get k l = Err e -> e = KeyErr /\ has_key k l = false.
+Proof. unfold dict_get, has_key. destruct (assoc k l); intros H; inversion H; auto. Qed.
+
+Lemma dict_get_keyerr_iff {B} k (l : list (N * B)) : dict_get k l = Err KeyErr <-> has_key k l = false.
+Proof. unfold dict_get, has_key. destruct (assoc k l); split; intros H; try discriminate; reflexivity. Qed.
+
+Lemma has_key_true {B} k (l : list (N * B)) : has_key k l = true -> exists v, dict_get k l = Ok v.
+Proof. unfold dict_get, has_key. destruct (assoc k l) as [v|]; [eauto | discriminate]. Qed.
+
+Lemma assoc_In {B} k (l : list (N * B)) : has_key k l = true <-> In k (map fst l).
+Proof.
+  unfold has_key. induction l as [|[k' v] l IH]; simpl.
+  - split; [discriminate | tauto].
+  - destruct (N.eqb_spec k' k) as [->|Hne].
+    + split; auto.
+    + rewrite IH. split; [auto | intros [H|H]; [congruence | exact H]].
+Qed.
+
+(** _next_ph_name: the result is not among the existing names; it fails exactly when the
+    table has no entry for the type, and then with KeyError *)
+Lemma next_ph_name_fresh tbl t id o names nm :
+  next_ph_name tbl t id o names = Ok nm -> ~ In nm names.
+Proof.
+  unfold next_ph_name, ph_base. destruct (dict_get t tbl) as [b|e]; [|discriminate].
+  cbn [bind]. destruct (next_num _ _ _ names) as [k|] eqn:E; [|discriminate].
+  intros H; inversion H; subst nm. apply next_num_some in E. tauto.
+Qed.
+
+Lemma next_ph_name_total tbl t id o names :
+  has_key t tbl = true -> exists nm, next_ph_name tbl t id o names = Ok nm.
+Proof.
+  intros Hk. apply has_key_true in Hk. destruct Hk as [b Hb].
+  unfold next_ph_name, ph_base. rewrite Hb. cbn [bind].
+  destruct (next_num _ _ _ names) as [k|] eqn:E; [eauto|].
+  exfalso. eapply next_num_fuel; exact E.
+Qed.
+
+Lemma next_ph_name_err tbl t id o names e :
+  next_ph_name tbl t id o names = Err e -> e = KeyErr /\ has_key t tbl = false.
+Proof.
+  unfold next_ph_name, ph_base. destruct (dict_get t tbl) as [b|e'] eqn:Hd.
+  - cbn [bind]. destruct (next_num _ _ _ names) as [k|] eqn:E; [discriminate|].
+    exfalso. eapply next_num_fuel; exact E.
+  - cbn [bind]. intros H; inversion H; subst e'. eapply dict_get_err; exact Hd.
+Qed.
+
+(** the name is the base name (with the Vertical prefix when vertical), a separator and the
+    least number, starting at id - offset, whose candidate is unused *)
+Lemma next_ph_name_shape tbl t id o names nm :
+  next_ph_name tbl t id o names = Ok nm ->
+  exists b k, assoc t tbl = Some b /\
+    nm = cand (if N.eqb o orient_vert then vertical_prefix ++ b else b) k /\
+    (id - numpart_offset <= k)%N /\
+    forall j, (id - numpart_offset <= j < k)%N ->
+      In (cand (if N.eqb o orient_vert then vertical_prefix ++ b else b) j) names.
+Proof.
+  unfold next_ph_name, ph_base. destruct (dict_get t tbl) as [b|e] eqn:Hd; [|discriminate].
+  cbn [bind]. destruct (next_num _ _ _ names) as [k|] eqn:E; [|discriminate].
+  intros H; inversion H; subst nm. apply next_num_some in E. destruct E as [_ [H2 H3]].
+  exists b, k. apply dict_get_ok in Hd. auto.
+Qed.
+
+(** * Ids *)
+Lemma fold_max_ge_acc : forall l a, (a <= fold_left N.max l a)%N.
+Proof. induction l as [|x l IH]; intros a; simpl; [lia|]. specialize (IH (N.max a x)). lia. Qed.
+
+Lemma fold_max_ge_in : forall l a x, In x l -> (x <= fold_left N.max l a)%N.
+Proof.
+  induction l as [|y l IH]; intros a x Hin; [contradiction|]. simpl.
+  destruct Hin as [->|Hin].
+  - pose proof (fold_max_ge_acc l (N.max a x)). lia.
+  - apply IH; exact Hin.
+Qed.
+
+Lemma max_id_ge k t x : In x (tree_ids k t) -> (x <= max_id k t)%N.
+Proof. apply fold_max_ge_in. Qed.
+
+(** * Cloning one placeholder *)
+Lemma norm_get d v : match norm d v with Some x => x | None => d end = v.
+Proof. unfold norm. destruct (N.eqb_spec v d); congruence. Qed.
+
+Lemma key_new_placeholder_sp c id name p :
+  exists p', s_ph (new_placeholder_sp c id name (ph_type p) (ph_orient p) (ph_sz p) (ph_idx p)) = Some p'
+             /\ key p' = key p.
+Proof.
+  eexists; split; [reflexivity|].
+  unfold key, ph_type, ph_idx, ph_orient, ph_sz; cbn [a_type a_idx a_orient a_sz].
+  rewrite !norm_get. reflexivity.
+Qed.
+
+Lemma clone_placeholder_ok c k t p t' :
+  clone_placeholder c k t p = Ok t' ->
+  exists s, t' = t ++ [s] /\ cloned c p s /\
+            ~ In (s_name s) (tree_names k t) /\ ~ In (s_id s) (tree_ids k t) /\
+            s_id s = (max_id k t + 1)%N /\ has_key (ph_type p) (base_table c k) = true.
+Proof.
+  unfold clone_placeholder.
+  destruct (next_ph_name _ _ _ _ _) as [nm|e] eqn:E; [|discriminate].
+  cbn [bind]. intros H; inversion H; subst t'. eexists; split; [reflexivity|].
+  split; [|split; [|split; [|split]]].
+  - split; [apply key_new_placeholder_sp|]. cbn. auto.
+  - cbn [s_name new_placeholder_sp]. eapply next_ph_name_fresh; exact E.
+  - cbn [s_id new_placeholder_sp]. intros Hin. apply max_id_ge in Hin. lia.
+  - reflexivity.
+  - destruct (has_key (ph_type p) (base_table c k)) eqn:Hk; [reflexivity|].
+    exfalso. unfold next_ph_name, ph_base in E.
+    apply dict_get_keyerr_iff in Hk. rewrite Hk in E. discriminate.
+Qed.
+
+Lemma clone_placeholder_total c k t p :
+  has_key (ph_type p) (base_table c k) = true -> exists t', clone_placeholder c k t p = Ok t'.
+Proof.
+  intros Hk. unfold clone_placeholder.
+  destruct (next_ph_name_total _ _ (max_id k t + 1)%N (ph_orient p) (tree_names k t) Hk) as [nm ->].
+  cbn [bind]. eauto.
+Qed.
+
+Lemma clone_placeholder_err c k t p e :
+  clone_placeholder c k t p = Err e -> e = KeyErr /\ has_key (ph_type p) (base_table c k) = false.
+Proof.
+  unfold clone_placeholder.
+  destruct (next_ph_name _ _ _ _ _) as [nm|e'] eqn:E; [discriminate|].
+  cbn [bind]. intros H; inversion H; subst e'. eapply next_ph_name_err; exact E.
+Qed.
+
+(** * Cloning a list of placeholders *)
+Lemma NoDup_snoc {A} (l : list A) x : NoDup l -> ~ In x l -> NoDup (l ++ [x]).
+Proof.
+  intros Hnd Hx. apply NoDup_rev in Hnd. rewrite <- (rev_involutive (l ++ [x])).
+  apply NoDup_rev. rewrite rev_app_distr. cbn. constructor; [|exact Hnd].
+  intros Hin. apply Hx. apply in_rev. exact Hin.
+Qed.
+
+Lemma clone_all_ok : forall c k ps t t',
+  clone_all c k t ps = (t', Ok tt) ->
+  exists new, t' = t ++ new /\ Forall2 (cloned c) ps new /\
+    Forall (fun p => has_key (ph_type p) (base_table c k) = true) ps /\
+    (NoDup (map s_name t) -> NoDup (map s_name t')) /\
+    (NoDup (map s_id t) -> NoDup (map s_id t')) /\
+    (forall s, In s new -> ~ In (s_name s) (tree_names k t) /\ ~ In (s_id s) (tree_ids k t)).
+Proof.
+  induction ps as [|p ps IH]; intros t t' H.
+  - cbn in H. inversion H; subst t'. exists []. rewrite app_nil_r.
+    repeat split; auto; try constructor; contradiction.
+  - cbn [clone_all] in H. destruct (clone_placeholder c k t p) as [t1|e] eqn:E; [|discriminate].
+    apply clone_placeholder_ok in E. destruct E as [s [-> [Hc [Hn [Hi [_ Hk]]]]]].
+    apply IH in H. destruct H as [new [-> [HF [Hks [HN [HI Hfresh]]]]]].
+    assert (Eq : (t ++ [s]) ++ new = t ++ s :: new) by (rewrite <- app_assoc; reflexivity).
+    rewrite Eq in *. clear Eq.
+    exists (s :: new).
+    split; [reflexivity|]. split; [constructor; assumption|]. split; [constructor; assumption|].
+    assert (Hn' : ~ In (s_name s) (map s_name t)).
+    { intros X; apply Hn; unfold tree_names; apply in_or_app; right; exact X. }
+    assert (Hi' : ~ In (s_id s) (map s_id t)).
+    { intros X; apply Hi; unfold tree_ids; apply in_or_app; right; exact X. }
+    split; [|split].
+    + intros Hnd. apply HN. rewrite map_app. cbn [map].
+      apply NoDup_snoc; assumption.
+    + intros Hnd. apply HI. rewrite map_app. cbn [map].
+      apply NoDup_snoc; assumption.
+    + intros s' [<-|Hin]; [split; assumption|].
+      destruct (Hfresh s' Hin) as [A B]. split.
+      * intros X; apply A. unfold tree_names in *. rewrite map_app.
+        apply in_app_or in X. destruct X as [X|X]; apply in_or_app; [left; exact X|right].
+        apply in_or_app; left; exact X.
+      * intros X; apply B. unfold tree_ids in *. rewrite map_app.
+        apply in_app_or in X. destruct X as [X|X]; apply in_or_app; [left; exact X|right].
+        apply in_or_app; left; exact X.
+Qed.
+
+Lemma clone_all_total : forall c k ps t,
+  Forall (fun p => has_key (ph_type p) (base_table c k) = true) ps ->
+  exists t', clone_all c k t ps = (t', Ok tt).
+Proof.
+  induction ps as [|p ps IH]; intros t HF.
+  - eexists; reflexivity.
+  - inversion HF; subst. cbn [clone_all].
+    destruct (clone_placeholder_total c k t p H1) as [t1 ->]. apply IH; assumption.
+Qed.
+
+(** the loop stops at the FIRST placeholder whose type has no base name, with KeyError, and
+    leaves the clones of the placeholders before it in the tree *)
+Lemma clone_all_err : forall c k ps t t' e,
+  clone_all c k t ps = (t', Err e) ->
+  e = KeyErr /\ exists pre p post, ps = pre ++ p :: post /\
+    has_key (ph_type p) (base_table c k) = false /\
+    clone_all c k t pre = (t', Ok tt).
+Proof.
+  induction ps as [|p ps IH]; intros t t' e H.
+  - cbn in H. discriminate.
+  - cbn [clone_all] in H. destruct (clone_placeholder c k t p) as [t1|e1] eqn:E.
+    + apply IH in H. destruct H as [-> [pre [q [post [-> [Hq Hpre]]]]]].
+      split; [reflexivity|]. exists (p :: pre), q, post. split; [reflexivity|]. split; [exact Hq|].
+      cbn [clone_all]. rewrite E. exact Hpre.
+    + inversion H; subst. apply clone_placeholder_err in E. destruct E as [-> Hk].
+      split; [reflexivity|]. exists [], p, ps. auto.
+Qed.
+
+Lemma clone_all_err_when_missing : forall c k ps t,
+  Exists (fun p => has_key (ph_type p) (base_table c k) = false) ps ->
+  exists t', clone_all c k t ps = (t', Err KeyErr).
+Proof.
+  induction ps as [|p ps IH]; intros t HE; [inversion HE|].
+  cbn [clone_all]. destruct (clone_placeholder c k t p) as [t1|e1] eqn:E.
+  - apply IH. inversion HE; subst; [|assumption].
+    apply clone_placeholder_ok in E. destruct E as [s [_ [_ [_ [_ [_ Hk]]]]]]. congruence.
+  - apply clone_placeholder_err in E. destruct E as [-> _]. eauto.
+Qed.
+
+Lemma clone_all_res : forall c k ps t, exists t' r, clone_all c k t ps = (t', r).
+Proof. intros. destruct (clone_all c k t ps) as [t' r]. eauto. Qed.
+
+(** * Lists of placeholder records *)
+Lemma phs_app a b : phs (a ++ b) = phs a ++ phs b.
+Proof. unfold phs. apply flat_map_app. Qed.
+
+Lemma Forall2_cloned_keys c : forall ps new, Forall2 (cloned c) ps new ->
+  map key (phs new) = map key ps /\ forallb is_ph new = true /\ length new = length ps.
+Proof.
+  induction 1 as [|p s ps new Hc HF IH]; [auto|].
+  destruct IH as [IH1 [IH2 IH3]]. destruct Hc as [[p' [Hp Hk]] _].
+  unfold phs in *. cbn [flat_map]. rewrite Hp. cbn [app map forallb length]. unfold is_ph at 1. rewrite Hp.
+  rewrite Hk, IH1, IH2, IH3. auto.
+Qed.
+
+Lemma cloneable_filter c L :
+  cloneable c L = filter (fun s => negb (has_type (c_latent c) s)) (placeholders L).
+Proof.
+  unfold cloneable, placeholders. induction L as [|s L IH]; [reflexivity|].
+  cbn [filter]. destruct (is_ph s); cbn [andb filter]; rewrite IH; reflexivity.
+Qed.
+
+Lemma cloneable_all_ph c L : forallb is_ph (cloneable c L) = true.
+Proof.
+  unfold cloneable. apply forallb_forall. intros s Hs. apply filter_In in Hs.
+  destruct Hs as [_ Hs]. apply andb_true_iff in Hs. tauto.
+Qed.
+
+(** on a list of placeholder shapes, [phs] is a map *)
+Lemma phs_of_placeholders : forall t, forallb is_ph t = true ->
+  Forall2 (fun s p => s_ph s = Some p) t (phs t).
+Proof.
+  induction t as [|s t IH]; intros H; [constructor|].
+  cbn in H. apply andb_true_iff in H. destruct H as [Hs Ht].
+  unfold phs; cbn [flat_map]. unfold is_ph in Hs. destruct (s_ph s) as [p|] eqn:E; [|discriminate].
+  cbn [app]. constructor; [exact E | apply IH; exact Ht].
+Qed.
+
+(** * add_slide *)
+Lemma Forall2_comp {A B C} (R1 : A -> B -> Prop) (R2 : B -> C -> Prop) :
+  forall a b c, Forall2 R1 a b -> Forall2 R2 b c ->
+  Forall2 (fun x z => exists y, R1 x y /\ R2 y z) a c.
+Proof.
+  induction a as [|x a IH]; intros b c H1 H2; inversion H1; subst; inversion H2; subst; constructor; eauto.
+Qed.
+
+Lemma Forall2_impl_in {A B} (R Q : A -> B -> Prop) : forall a b,
+  Forall2 R a b -> (forall x y, In x a -> In y b -> R x y -> Q x y) -> Forall2 Q a b.
+Proof.
+  induction 1 as [|x y a b HR HF IH]; intros HQ; constructor.
+  - apply HQ; simpl; auto.
+  - apply IH. intros; apply HQ; simpl; auto.
+Qed.
+
+Lemma new_tree_ok c k src t :
+  forallb is_ph src = true ->
+  clone_all c k [] (phs src) = (t, Ok tt) ->
+  Forall2 (clone_of c) src t /\ NoDup (map s_name t) /\ NoDup (map s_id t) /\
+  (forall s, In s t -> ~ In (s_name s) (tmpl_names k) /\ ~ In (s_id s) (tmpl_ids k)).
+Proof.
+  intros Hph H. apply clone_all_ok in H.
+  destruct H as [new [-> [HF [_ [HN [HI Hfr]]]]]]. cbn [app].
+  split; [|split; [|split]].
+  - pose proof (Forall2_comp _ _ _ _ _ (phs_of_placeholders src Hph) HF) as HC.
+    eapply Forall2_impl_in; [exact HC|]. intros x y _ _ [p [H1 H2]]. exists p; auto.
+  - apply HN. constructor.
+  - apply HI. constructor.
+  - intros s Hs. destruct (Hfr s Hs) as [A B]. unfold tree_names, tree_ids in *.
+    cbn [map] in *. rewrite app_nil_r in *. auto.
+Qed.
+
+Lemma add_slide_ok c d l d' :
+  add_slide c d l = (d', Ok tt) ->
+  exists L s, nth_error (d_layouts d) l = Some L /\
+    d' = set_slides d (d_slides d ++ [s]) /\
+    sl_layout s = l /\ sl_notes s = None /\
+    Forall2 (clone_of c) (cloneable c (l_shapes L)) (sl_shapes s) /\
+    NoDup (map s_name (sl_shapes s)) /\ NoDup (map s_id (sl_shapes s)).
+Proof.
+  unfold add_slide, new_slide_tree. destruct (nth_error (d_layouts d) l) as [L|] eqn:EL; [|discriminate].
+  destruct (clone_all c KSlide [] (phs (cloneable c (l_shapes L)))) as [t r] eqn:E.
+  destruct r as [[]|e]; intros H; inversion H; subst d'.
+  apply new_tree_ok in E; [|apply cloneable_all_ph]. destruct E as [HF [HN [HI _]]].
+  exists L, (mk_slide l t None). cbn. auto 10.
+Qed.
+
+Lemma add_slide_ok_iff c d l :
+  (exists d', add_slide c d l = (d', Ok tt)) <->
+  exists L, nth_error (d_layouts d) l = Some L /\
+    Forall (fun p => has_key (ph_type p) (c_base_slide c) = true) (phs (cloneable c (l_shapes L))).
+Proof.
+  unfold add_slide, new_slide_tree. split.
+  - intros [d' H]. destruct (nth_error (d_layouts d) l) as [L|]; [|discriminate].
+    exists L. split; [reflexivity|].
+    destruct (clone_all c KSlide [] (phs (cloneable c (l_shapes L)))) as [t r] eqn:E.
+    destruct r as [[]|e]; [|discriminate].
+    apply clone_all_ok in E. destruct E as [new [_ [_ [Hk _]]]]. exact Hk.
+  - intros [L [-> HF]].
+    destruct (clone_all_total c KSlide _ [] HF) as [t ->]. eauto.
+Qed.
+
+(** the failing case: KeyError for the first cloneable placeholder whose type has no base name;
+    the deck keeps its slides, and gains a related but unlisted slide part holding the clones
+    made so far, numbered as the next slide *)
+Lemma add_slide_err c d l d' e :
+  add_slide c d l = (d', Err e) ->
+  (e = IndexErr /\ nth_error (d_layouts d) l = None /\ d' = d) \/
+  (e = KeyErr /\ exists L s pre p post,
+     nth_error (d_layouts d) l = Some L /\
+     d' = set_orphans d (d_orphans d ++ [((N.of_nat (length (d_slides d)) + 1)%N, s)]) /\
+     sl_layout s = l /\
+     phs (cloneable c (l_shapes L)) = pre ++ p :: post /\
+     has_key (ph_type p) (c_base_slide c) = false /\
+     Forall2 (cloned c) pre (sl_shapes s)).
+Proof.
+  unfold add_slide, new_slide_tree. destruct (nth_error (d_layouts d) l) as [L|] eqn:EL.
+  - destruct (clone_all c KSlide [] (phs (cloneable c (l_shapes L)))) as [t r] eqn:E.
+    destruct r as [[]|e0]; intros H; inversion H; subst d' e0. right.
+    apply clone_all_err in E. destruct E as [-> [pre [p [post [Hps [Hk Hpre]]]]]].
+    split; [reflexivity|]. exists L, (mk_slide l t None), pre, p, post.
+    apply clone_all_ok in Hpre. destruct Hpre as [new [-> [HF _]]]. cbn. auto 10.
+  - intros H; inversion H; subst. left. auto.
+Qed.
+
+Lemma add_slide_keyerr_when_missing c d l L :
+  nth_error (d_layouts d) l = Some L ->
+  Exists (fun p => has_key (ph_type p) (c_base_slide c) = false) (phs (cloneable c (l_shapes L))) ->
+  exists d', add_slide c d l = (d', Err KeyErr) /\ d_slides d' = d_slides d /\
+             length (d_orphans d') = S (length (d_orphans d)).
+Proof.
+  intros EL HE. unfold add_slide, new_slide_tree. rewrite EL.
+  destruct (clone_all_err_when_missing c KSlide _ [] HE) as [t ->].
+  eexists; split; [reflexivity|]. cbn. rewrite app_length. cbn. split; [reflexivity|lia].
+Qed.
+
+(** frame: whatever the outcome, layouts, masters and the notes master are untouched and the
+    slides already present stay, in order, at the front *)
+Lemma add_slide_frame c d l d' r :
+  add_slide c d l = (d', r) ->
+  d_layouts d' = d_layouts d /\ d_masters d' = d_masters d /\ d_notes_master d' = d_notes_master d /\
+  firstn (length (d_slides d)) (d_slides d') = d_slides d /\
+  (forall e, r = Err e -> d_slides d' = d_slides d) /\
+  (r = Ok tt -> d_orphans d' = d_orphans d /\ length (d_slides d') = S (length (d_slides d))).
+Proof.
+  unfold add_slide, new_slide_tree. destruct (nth_error (d_layouts d) l) as [L|].
+  - destruct (clone_all c KSlide [] (phs (cloneable c (l_shapes L)))) as [t [[]|e0]];
+      intros H; inversion H; subst; cbn.
+    + rewrite firstn_app, Nat.sub_diag, firstn_all, app_length. cbn. rewrite app_nil_r.
+      repeat split; auto; try discriminate; lia.
+    + rewrite firstn_all. repeat split; auto; discriminate.
+  - intros H; inversion H; subst. rewrite firstn_all. repeat split; auto; discriminate.
+Qed.
+
+(** * Inherited geometry *)
+Lemma layout_get_find L i : layout_get L i = find (idx_pred i) L.
+Proof. reflexivity. Qed.
+
+Lemma find_first {A} (f : A -> bool) : forall l x, find f l = Some x ->
+  exists pre post, l = pre ++ x :: post /\ f x = true /\ forallb (fun y => negb (f y)) pre = true.
+Proof.
+  induction l as [|y l IH]; intros x H; [discriminate|]. cbn in H.
+  destruct (f y) eqn:E.
+  - inversion H; subst. exists [], l. auto.
+  - destruct (IH x H) as [pre [post [-> [Hx Hp]]]]. exists (y :: pre), post.
+    cbn. rewrite E. auto.
+Qed.
+
+Lemma find_none_in {A} (f : A -> bool) l x : find f l = None -> In x l -> f x = false.
+Proof. intros H Hin. eapply find_none; eauto. Qed.
+
+Lemma first_with_idx_spec Ls lp :
+  In lp Ls -> is_ph lp = true ->
+  exists pre post, Ls = pre ++ first_with_idx Ls lp :: post /\
+    is_ph (first_with_idx Ls lp) = true /\ sh_idx (first_with_idx Ls lp) = sh_idx lp /\
+    forall y, In y pre -> is_ph y = true -> sh_idx y <> sh_idx lp.
+Proof.
+  intros Hin Hph. unfold first_with_idx. rewrite layout_get_find.
+  destruct (find (idx_pred (sh_idx lp)) Ls) as [x|] eqn:E.
+  - apply find_first in E. destruct E as [pre [post [-> [Hx Hpre]]]].
+    exists pre, post. split; [reflexivity|].
+    unfold idx_pred in Hx. unfold is_ph, sh_idx at 1.
+    destruct (s_ph x) as [p|]; [|discriminate]. apply N.eqb_eq in Hx.
+    split; [reflexivity|]. split; [exact Hx|].
+    intros y Hy Hyph Heq. rewrite forallb_forall in Hpre. specialize (Hpre y Hy).
+    unfold idx_pred, is_ph, sh_idx in *. destruct (s_ph y) as [q|]; [|discriminate].
+    rewrite Heq, N.eqb_refl in Hpre. discriminate.
+  - exfalso. pose proof (find_none_in _ _ _ E Hin) as Hf.
+    unfold idx_pred, is_ph, sh_idx in *. destruct (s_ph lp); [|discriminate].
+    rewrite N.eqb_refl in Hf. discriminate.
+Qed.
+
+Lemma NoDup_map_eq {A B} (f : A -> B) : forall l x y,
+  NoDup (map f l) -> In x l -> In y l -> f x = f y -> x = y.
+Proof.
+  induction l as [|z l IH]; intros x y Hnd Hx Hy Hf; [contradiction|].
+  cbn in Hnd. inversion Hnd as [|? ? Hz Hnd']; subst.
+  destruct Hx as [->|Hx]; destruct Hy as [->|Hy]; auto.
+  - exfalso. apply Hz. rewrite Hf. apply in_map; exact Hy.
+  - exfalso. apply Hz. rewrite <- Hf. apply in_map; exact Hx.
+Qed.
+
+(** with idx values unique among the placeholders of the layout, that first match is the
+    placeholder itself *)
+Lemma first_with_idx_unique Ls lp :
+  NoDup (map sh_idx (placeholders Ls)) -> In lp Ls -> is_ph lp = true ->
+  first_with_idx Ls lp = lp.
+Proof.
+  intros Hnd Hin Hph. destruct (first_with_idx_spec Ls lp Hin Hph) as [pre [post [E [Hx [Hi _]]]]].
+  apply (NoDup_map_eq sh_idx (placeholders Ls)); auto.
+  - unfold placeholders. apply filter_In. split; [|exact Hx]. rewrite E at 2.
+    apply in_or_app; right; left; reflexivity.
+  - unfold placeholders. apply filter_In. auto.
+Qed.
+
+Lemma cloned_own c p sp a : cloned c p sp -> own a sp = None.
+Proof. intros [_ [Ho [He _]]]. destruct a; cbn; rewrite ?Ho, ?He; reflexivity. Qed.
+
+Lemma key_idx p q : key p = key q -> ph_idx p = ph_idx q.
+Proof. unfold key. intros H; inversion H; reflexivity. Qed.
+Lemma key_type p q : key p = key q -> ph_type p = ph_type q.
+Proof. unfold key. intros H; inversion H; reflexivity. Qed.
+
+(** a fresh clone of [lp] on a slide whose layout tree is [Ls] reports, for every attribute,
+    the effective value of the first placeholder of [Ls] with the idx of [lp] *)
+Lemma clone_inherits c a M Ls lp sp :
+  In lp Ls -> clone_of c lp sp ->
+  slide_eff c a M Ls sp = layout_eff c a M (first_with_idx Ls lp).
+Proof.
+  intros Hin [p [Hlp Hc]]. unfold slide_eff. rewrite (cloned_own c p sp a Hc).
+  destruct Hc as [[p' [Hsp Hk]] _]. rewrite Hsp.
+  unfold first_with_idx, sh_idx. rewrite Hlp, (key_idx _ _ Hk).
+  destruct (layout_get Ls (ph_idx p)) as [x|] eqn:E; [reflexivity|].
+  exfalso. rewrite layout_get_find in E. pose proof (find_none_in _ _ _ E Hin) as Hf.
+  unfold idx_pred in Hf. rewrite Hlp, N.eqb_refl in Hf. discriminate.
+Qed.
+
+Lemma cloneable_in c L s : In s (cloneable c L) -> In s L /\ is_ph s = true.
+Proof.
+  unfold cloneable. intros H. apply filter_In in H. destruct H as [H1 H2].
+  apply andb_true_iff in H2. tauto.
+Qed.
+
+Lemma layout_tree_frame d d' l : d_layouts d' = d_layouts d -> layout_tree d' l = layout_tree d l.
+Proof. unfold layout_tree. intros ->. reflexivity. Qed.
+Lemma master_tree_frame d d' l : d_layouts d' = d_layouts d -> d_masters d' = d_masters d ->
+  master_tree d' l = master_tree d l.
+Proof. unfold master_tree. intros -> ->. reflexivity. Qed.
+
+Lemma add_slide_inherit c d l d' :
+  add_slide c d l = (d', Ok tt) ->
+  exists L s, nth_error (d_layouts d) l = Some L /\ d_slides d' = d_slides d ++ [s] /\
+    Forall2 (fun lp sp => forall a,
+               slide_geom c d' s a sp =
+               layout_eff c a (master_tree d l) (first_with_idx (l_shapes L) lp))
+            (cloneable c (l_shapes L)) (sl_shapes s).
+Proof.
+  intros H. destruct (add_slide_ok _ _ _ _ H) as [L [s [EL [-> [Hl [_ [HF _]]]]]]].
+  exists L, s. split; [exact EL|]. split; [reflexivity|].
+  eapply Forall2_impl_in; [exact HF|]. intros lp sp Hin _ Hc a.
+  unfold slide_geom. rewrite Hl.
+  unfold layout_tree, master_tree. cbn [d_layouts d_masters set_slides]. rewrite EL.
+  apply clone_inherits; [|exact Hc]. apply (cloneable_in c); exact Hin.
+Qed.
+
+(** reading of [layout_eff]: own value, else the master placeholder of the mapped type; the
+    dict lookup is done before the master is consulted *)
+Lemma layout_eff_own c a M lp v : own a lp = Some v -> layout_eff c a M lp = Ok (Some v).
+Proof. unfold layout_eff. intros ->. reflexivity. Qed.
+
+Lemma layout_eff_master c a M lp p bt :
+  own a lp = None -> s_ph lp = Some p -> assoc (ph_type p) (c_lmmap c) = Some bt ->
+  layout_eff c a M lp = Ok (match master_get M bt with Some mp => own a mp | None => None end).
+Proof.
+  unfold layout_eff, dict_get. intros -> -> ->. cbn [bind]. destruct (master_get M bt); reflexivity.
+Qed.
+
+Lemma layout_eff_keyerr c a M lp p :
+  own a lp = None -> s_ph lp = Some p -> has_key (ph_type p) (c_lmmap c) = false ->
+  layout_eff c a M lp = Err KeyErr.
+Proof.
+  unfold layout_eff. intros -> -> Hk. apply dict_get_keyerr_iff in Hk. rewrite Hk. reflexivity.
+Qed.
+
+Lemma layout_eff_err c a M lp e : layout_eff c a M lp = Err e ->
+  e = KeyErr /\ own a lp = None /\ exists p, s_ph lp = Some p /\ has_key (ph_type p) (c_lmmap c) = false.
+Proof.
+  unfold layout_eff. destruct (own a lp); [discriminate|]. destruct (s_ph lp) as [p|]; [|discriminate].
+  destruct (dict_get (ph_type p) (c_lmmap c)) as [bt|e'] eqn:E; cbn [bind].
+  - destruct (master_get M bt); discriminate.
+  - intros H; inversion H; subst. apply dict_get_err in E. destruct E as [-> Hk]. eauto.
+Qed.
+
+(** live inheritance, in any deck state: while a slide placeholder has no own value for an
+    attribute it reports what the current layout tree gives for its idx *)
+Lemma slide_eff_unset c a M Ls sp p :
+  s_ph sp = Some p -> own a sp = None ->
+  slide_eff c a M Ls sp =
+  match layout_get Ls (ph_idx p) with Some lp => layout_eff c a M lp | None => Ok None end.
+Proof. unfold slide_eff. intros -> ->. reflexivity. Qed.
+
+Lemma slide_eff_own c a M Ls sp v : own a sp = Some v -> slide_eff c a M Ls sp = Ok (Some v).
+Proof. unfold slide_eff. intros ->. reflexivity. Qed.
+
+(** * Setting a dimension *)
+Lemma set_attr_ok a v s s' :
+  set_attr a v s = (s', Ok tt) ->
+  coord_ok a v = true /\ own a s' = Some v /\
+  s_ph s' = s_ph s /\ s_id s' = s_id s /\ s_name s' = s_name s /\
+  (forall b, same_pair a b = false -> own b s' = own b s) /\
+  (forall b, same_pair a b = true -> b <> a ->
+     own b s' = Some (match own b s with Some x => x | None => 0%Z end)).
+Proof.
+  unfold set_attr. destruct (coord_ok a v) eqn:E; intros H; inversion H; subst s'; clear H.
+  split; [reflexivity|].
+  destruct s as [i n p [[x y]|] [[w h]|] t]; destruct a; cbn;
+    (split; [reflexivity|]); repeat (split; [reflexivity|]);
+    (split; [intros b Hb; destruct b; cbn in *; try discriminate; reflexivity
+            |intros b Hb Hne; destruct b; cbn in *; try discriminate; try reflexivity; congruence]).
+Qed.
+
+Lemma set_attr_err a v s s' e :
+  set_attr a v s = (s', Err e) ->
+  e = ValueErr /\ coord_ok a v = false /\
+  (forall b, same_pair a b = false -> own b s' = own b s) /\
+  (forall b, same_pair a b = true ->
+     own b s' = Some (match own b s with Some x => x | None => 0%Z end)).
+Proof.
+  unfold set_attr. destruct (coord_ok a v) eqn:E; intros H; inversion H; subst s' e; clear H.
+  split; [reflexivity|]. split; [reflexivity|].
+  destruct s as [i n p [[x y]|] [[w h]|] t]; destruct a; cbn;
+    (split; intros b Hb; destruct b; cbn in *; try discriminate; reflexivity).
+Qed.
+
+(** * Notes slides *)
+Lemma memN_In c l : memN c l = true <-> In c l.
+Proof.
+  unfold memN. rewrite existsb_exists. split.
+  - intros [x [Hx He]]. apply N.eqb_eq in He. subst; exact Hx.
+  - intros H. exists c. split; [exact H | apply N.eqb_refl].
+Qed.
+
+Lemma first_with_type_spec NM mp :
+  In mp NM -> is_ph mp = true ->
+  exists pre post, NM = pre ++ first_with_type NM mp :: post /\
+    is_ph (first_with_type NM mp) = true /\ sh_type (first_with_type NM mp) = sh_type mp /\
+    forall y, In y pre -> is_ph y = true -> sh_type y <> sh_type mp.
+Proof.
+  intros Hin Hph. unfold first_with_type, master_get.
+  change (fun s : shape => match s_ph s with Some p => N.eqb (ph_type p) (sh_type mp) | None => false end)
+    with (type_pred (sh_type mp)).
+  destruct (find (type_pred (sh_type mp)) NM) as [x|] eqn:E.
+  - apply find_first in E. destruct E as [pre [post [-> [Hx Hpre]]]].
+    exists pre, post. split; [reflexivity|].
+    unfold type_pred in Hx. unfold is_ph, sh_type at 1.
+    destruct (s_ph x) as [p|]; [|discriminate]. apply N.eqb_eq in Hx.
+    split; [reflexivity|]. split; [exact Hx|].
+    intros y Hy Hyph Heq. rewrite forallb_forall in Hpre. specialize (Hpre y Hy).
+    unfold type_pred, is_ph, sh_type in *. destruct (s_ph y) as [q|]; [|discriminate].
+    rewrite Heq, N.eqb_refl in Hpre. discriminate.
+  - exfalso. pose proof (find_none_in _ _ _ E Hin) as Hf.
+    unfold type_pred, is_ph, sh_type in *. destruct (s_ph mp); [|discriminate].
+    rewrite N.eqb_refl in Hf. discriminate.
+Qed.
+
+Lemma first_with_type_unique NM mp :
+  NoDup (map sh_type (placeholders NM)) -> In mp NM -> is_ph mp = true ->
+  first_with_type NM mp = mp.
+Proof.
+  intros Hnd Hin Hph. destruct (first_with_type_spec NM mp Hin Hph) as [pre [post [E [Hx [Hi _]]]]].
+  apply (NoDup_map_eq sh_type (placeholders NM)); auto.
+  - unfold placeholders. apply filter_In. split; [|exact Hx]. rewrite E at 2.
+    apply in_or_app; right; left; reflexivity.
+  - unfold placeholders. apply filter_In. auto.
+Qed.
+
+Lemma notes_clone_inherits c a NM mp sp :
+  In mp NM -> clone_of c mp sp -> notes_eff a NM sp = own a (first_with_type NM mp).
+Proof.
+  intros Hin [p [Hmp Hc]]. unfold notes_eff. rewrite (cloned_own c p sp a Hc).
+  destruct Hc as [[p' [Hsp Hk]] _]. rewrite Hsp.
+  unfold first_with_type, sh_type. rewrite Hmp, (key_type _ _ Hk).
+  destruct (master_get NM (ph_type p)) as [x|] eqn:E; [reflexivity|].
+  exfalso. unfold master_get in E. pose proof (find_none_in _ _ _ E Hin) as Hf.
+  cbn in Hf. rewrite Hmp, N.eqb_refl in Hf. discriminate.
+Qed.
+
+Lemma notes_cloneable_in c NM s : In s (notes_cloneable_of c NM) ->
+  In s NM /\ is_ph s = true /\ has_type (c_notes_cloneable c) s = true.
+Proof.
+  unfold notes_cloneable_of. intros H. apply filter_In in H. destruct H as [H1 H2].
+  apply andb_true_iff in H2. tauto.
+Qed.
+
+Lemma notes_cloneable_all_ph c NM : forallb is_ph (notes_cloneable_of c NM) = true.
+Proof. apply forallb_forall. intros s Hs. apply notes_cloneable_in in Hs. tauto. Qed.
+
+Lemma notes_cloneable_filter c NM :
+  notes_cloneable_of c NM = filter (has_type (c_notes_cloneable c)) (placeholders NM).
+Proof.
+  unfold notes_cloneable_of, placeholders. induction NM as [|s L IH]; [reflexivity|].
+  cbn [filter]. destruct (is_ph s); cbn [andb filter]; rewrite IH; reflexivity.
+Qed.
+
+Lemma notes_types_have_names c NM :
+  Forall (fun t => has_key t (c_base_notes c) = true) (c_notes_cloneable c) ->
+  Forall (fun p => has_key (ph_type p) (c_base_notes c) = true) (phs (notes_cloneable_of c NM)).
+Proof.
+  intros Htot. pose proof (phs_of_placeholders _ (notes_cloneable_all_ph c NM)) as HF.
+  assert (Hall : Forall (fun s => has_type (c_notes_cloneable c) s = true) (notes_cloneable_of c NM)).
+  { apply Forall_forall. intros s Hs. apply notes_cloneable_in in Hs. tauto. }
+  revert Hall. induction HF as [|s p ss ps Hs HF IH]; intros Hall; [constructor|].
+  inversion Hall; subst. constructor; [|apply IH; assumption].
+  unfold has_type in H1. rewrite Hs in H1. apply memN_In in H1.
+  rewrite Forall_forall in Htot. apply Htot; exact H1.
+Qed.
+
+(** creating the notes slide of slide number [s] (it has none yet): never fails when the
+    notes base-name table covers the cloneable types; the result is explicit, so the frame
+    (other slides, layouts, masters untouched; notes master created from the default
+    template when absent) can be read off *)
+Lemma notes_slide_new c d s sl :
+  nth_error (d_slides d) s = Some sl -> sl_notes sl = None ->
+  Forall (fun t => has_key t (c_base_notes c) = true) (c_notes_cloneable c) ->
+  exists nt,
+    notes_slide c d s =
+      (set_slides (ensure_notes_master d)
+         (upd_nth s (fun x => mk_slide (sl_layout x) (sl_shapes x) (Some nt)) (d_slides d)), Ok tt) /\
+    Forall2 (clone_of c) (notes_cloneable_of c (the_notes_master d)) nt /\
+    NoDup (map s_name nt) /\ NoDup (map s_id nt) /\
+    Forall2 (fun mp sp => forall a, notes_eff a (the_notes_master d) sp =
+                                    own a (first_with_type (the_notes_master d) mp))
+            (notes_cloneable_of c (the_notes_master d)) nt.
+Proof.
+  intros Hs Hn Htot. unfold notes_slide, new_notes_tree. rewrite Hs, Hn.
+  destruct (clone_all_total c KNotes _ [] (notes_types_have_names c (the_notes_master d) Htot)) as [t E].
+  rewrite E. exists t. split; [reflexivity|].
+  apply new_tree_ok in E; [|apply notes_cloneable_all_ph]. destruct E as [HF [HN [HI _]]].
+  repeat split; auto.
+  eapply Forall2_impl_in; [exact HF|]. intros mp sp Hin _ Hc a.
+  apply (notes_clone_inherits c); [|exact Hc]. apply notes_cloneable_in in Hin. tauto.
+Qed.
+
+Lemma notes_slide_existing c d s sl nt :
+  nth_error (d_slides d) s = Some sl -> sl_notes sl = Some nt -> notes_slide c d s = (d, Ok tt).
+Proof. intros Hs Hn. unfold notes_slide. rewrite Hs, Hn. reflexivity. Qed.
+
+Lemma nth_error_upd_nth_same {A} (f : A -> A) : forall l n,
+  nth_error (upd_nth n f l) n = option_map f (nth_error l n).
+Proof. induction l as [|x l IH]; intros [|n]; cbn; auto. Qed.
+
+Lemma nth_error_upd_nth_other {A} (f : A -> A) : forall l n m, n <> m ->
+  nth_error (upd_nth n f l) m = nth_error l m.
+Proof.
+  induction l as [|x l IH]; intros [|n] [|m] H; cbn; auto; try congruence.
+Qed.
+
+Lemma length_upd_nth {A} (f : A -> A) : forall l n, length (upd_nth n f l) = length l.
+Proof. induction l as [|x l IH]; intros [|n]; cbn; auto. Qed.
+
+Lemma map_upd_nth_preserve {A B} (g : A -> B) (f : A -> A) :
+  (forall x, g (f x) = g x) -> forall l n, map g (upd_nth n f l) = map g l.
+Proof.
+  intros H. induction l as [|x l IH]; intros [|n]; cbn; auto; rewrite ?H, ?IH; reflexivity.
+Qed.
+
+(** * Histories *)
+Lemma step_slides_prefix c d o d' r :
+  step c d o = (d', r) ->
+  exists suf, map sl_layout (d_slides d') = map sl_layout (d_slides d) ++ suf /\ (length suf <= 1)%nat.
+Proof.
+  assert (Hsame : forall d2 : deck, d_slides d2 = d_slides d ->
+            exists suf, map sl_layout (d_slides d2) = map sl_layout (d_slides d) ++ suf /\ (length suf <= 1)%nat).
+  { intros d2 ->. exists []. rewrite app_nil_r. split; [reflexivity | cbn; lia]. }
+  assert (Hupd : forall (d2 : deck) n f, (forall x, sl_layout (f x) = sl_layout x) ->
+            d_slides d2 = upd_nth n f (d_slides d) ->
+            exists suf, map sl_layout (d_slides d2) = map sl_layout (d_slides d) ++ suf /\ (length suf <= 1)%nat).
+  { intros d2 n f Hf ->. exists []. rewrite app_nil_r, map_upd_nth_preserve by exact Hf.
+    split; [reflexivity | cbn; lia]. }
+  destruct o as [l|s|tg e|s x y cx cy]; cbn [step].
+  - unfold add_slide. destruct (nth_error (d_layouts d) l) as [L|].
+    + destruct (new_slide_tree c (l_shapes L)) as [t [[]|e0]]; intros H; inversion H; subst; cbn.
+      * exists [l]. rewrite map_app. cbn. split; [reflexivity|lia].
+      * apply Hsame; reflexivity.
+    + intros H; inversion H; subst. apply Hsame; reflexivity.
+  - unfold notes_slide. destruct (nth_error (d_slides d) s) as [sl|]; [|intros H; inversion H; subst; apply Hsame; reflexivity].
+    destruct (sl_notes sl); [intros H; inversion H; subst; apply Hsame; reflexivity|].
+    destruct (new_notes_tree c (the_notes_master d)) as [t [[]|e0]]; intros H; inversion H; subst.
+    + eapply Hupd; [|reflexivity]. reflexivity.
+    + apply Hsame; reflexivity.
+  - destruct tg as [s i|s i|l i|m i|i].
+    + destruct (nth_error (d_slides d) s) as [sl|]; [|intros H; inversion H; subst; apply Hsame; reflexivity].
+      destruct (edit_tree (sl_shapes sl) i e) as [t r0]. intros H; inversion H; subst.
+      eapply Hupd; [|reflexivity]. reflexivity.
+    + destruct (nth_error (d_slides d) s) as [sl|]; [|intros H; inversion H; subst; apply Hsame; reflexivity].
+      destruct (sl_notes sl) as [nt|]; [|intros H; inversion H; subst; apply Hsame; reflexivity].
+      destruct (edit_tree nt i e) as [t r0]. intros H; inversion H; subst.
+      eapply Hupd; [|reflexivity]. reflexivity.
+    + destruct (nth_error (d_layouts d) l) as [L|]; [|intros H; inversion H; subst; apply Hsame; reflexivity].
+      destruct (edit_tree (l_shapes L) i e) as [t r0]. intros H; inversion H; subst. apply Hsame; reflexivity.
+    + destruct (nth_error (d_masters d) m) as [M|]; [|intros H; inversion H; subst; apply Hsame; reflexivity].
+      destruct (edit_tree M i e) as [t r0]. intros H; inversion H; subst. apply Hsame; reflexivity.
+    + destruct (edit_tree (the_notes_master d) i e) as [t r0]. intros H; inversion H; subst. apply Hsame; reflexivity.
+  - destruct (nth_error (d_slides d) s) as [sl|]; intros H; inversion H; subst.
+    + eapply Hupd; [|reflexivity]. reflexivity.
+    + apply Hsame; reflexivity.
+Qed.
+
+(** over any history: slides are only ever appended; the slides present at the start stay
+    at the front in their order and every slide keeps its layout *)
+Lemma history_slides_prefix c : forall ops d,
+  exists suf, map sl_layout (d_slides (final c d ops)) = map sl_layout (d_slides d) ++ suf /\
+              (length suf <= length ops)%nat.
+Proof.
+  unfold final. induction ops as [|o ops IH]; intros d.
+  - exists []. cbn. rewrite app_nil_r. auto.
+  - cbn [run_ops]. destruct (step c d o) as [d1 r] eqn:E.
+    destruct (step_slides_prefix _ _ _ _ _ E) as [s1 [H1 L1]].
+    destruct (IH d1) as [s2 [H2 L2]].
+    destruct (run_ops c d1 ops) as [d2 rs]. cbn [fst] in *.
+    exists (s1 ++ s2). rewrite H2, H1, <- app_assoc, app_length. split; [reflexivity|cbn; lia].
+Qed.
+
+(** * slide.placeholders: the shape-tree placeholders, stably sorted by idx *)
+Lemma ins_idx_perm x : forall l, Permutation (ins_idx x l) (x :: l).
+Proof.
+  induction l as [|y l IH]; cbn; [reflexivity|].
+  destruct (sh_idx y <? sh_idx x)%N; [|reflexivity].
+  rewrite IH. apply perm_swap.
+Qed.
+
+Lemma slide_placeholders_perm t : Permutation (slide_placeholders t) (placeholders t).
+Proof.
+  unfold slide_placeholders. induction (placeholders t) as [|x l IH]; cbn; [reflexivity|].
+  rewrite ins_idx_perm. constructor. exact IH.
+Qed.
+
+Lemma ins_idx_hd x y l : idx_le y x -> HdRel idx_le y l -> HdRel idx_le y (ins_idx x l).
+Proof.
+  intros Hyx H. destruct l as [|z l]; cbn; [constructor; exact Hyx|].
+  destruct (sh_idx z <? sh_idx x)%N; constructor; [|exact Hyx].
+  inversion H; assumption.
+Qed.
+
+Lemma ins_idx_sorted x : forall l, Sorted idx_le l -> Sorted idx_le (ins_idx x l).
+Proof.
+  induction l as [|y l IH]; intros H; cbn; [repeat constructor|].
+  inversion H as [|? ? Hs Hh]; subst.
+  destruct (N.ltb_spec (sh_idx y) (sh_idx x)) as [Hlt|Hge].
+  - constructor; [apply IH; exact Hs|]. apply ins_idx_hd; [unfold idx_le; lia | exact Hh].
+  - constructor; [exact H|]. constructor. unfold idx_le; lia.
+Qed.
+
+Lemma slide_placeholders_sorted t : Sorted idx_le (slide_placeholders t).
+Proof.
+  unfold slide_placeholders. induction (placeholders t) as [|x l IH]; cbn; [constructor|].
+  apply ins_idx_sorted; exact IH.
+Qed.
+
+(** when the tree order is already non-decreasing in idx the view IS the tree order *)
+Lemma sort_sorted_id : forall l, Sorted idx_le l -> fold_right ins_idx [] l = l.
+Proof.
+  induction l as [|x l IH]; intros H; [reflexivity|]. cbn.
+  inversion H as [|? ? Hs Hh]; subst. rewrite (IH Hs).
+  destruct l as [|y l]; [reflexivity|]. cbn. inversion Hh as [|? ? Hxy]; subst.
+  unfold idx_le in Hxy. destruct (N.ltb_spec (sh_idx y) (sh_idx x)); [lia | reflexivity].
+Qed.
+
+Lemma slide_placeholders_id t : Sorted idx_le (placeholders t) -> slide_placeholders t = placeholders t.
+Proof. apply sort_sorted_id. Qed.
+
+(** * The literal dicts are partial *)
+Lemma missing_spec {B} (tbl : list (N * B)) t :
+  In t (missing tbl) <-> In t all_ph_types /\ has_key t tbl = false.
+Proof.
+  unfold missing. rewrite filter_In. split; intros [H1 H2]; split; auto.
+  - apply negb_true_iff in H2; exact H2.
+  - rewrite H2; reflexivity.
+Qed.
+
+Lemma partial_exact :
+  missing basename_slide = py_missing_basename_slide /\
+  missing basename_notes = py_missing_basename_notes /\
+  missing layout_master_map = py_missing_layout_master_map.
+Proof. vm_compute. repeat split; reflexivity. Qed.
+
+Lemma gen_basename_total t :
+  In t all_ph_types -> ~ In t py_missing_basename_slide -> has_key t (c_base_slide gen_cfg) = true.
+Proof.
+  intros Hin Hnot. destruct (has_key t (c_base_slide gen_cfg)) eqn:E; [reflexivity|].
+  exfalso. apply Hnot. destruct partial_exact as [<- _]. apply missing_spec. auto.
+Qed.
+
+Lemma gen_lmmap_total t :
+  In t all_ph_types -> ~ In t py_missing_layout_master_map -> has_key t (c_lmmap gen_cfg) = true.
+Proof.
+  intros Hin Hnot. destruct (has_key t (c_lmmap gen_cfg)) eqn:E; [reflexivity|].
+  exfalso. apply Hnot. destruct partial_exact as [_ [_ <-]]. apply missing_spec. auto.
+Qed.
+
+Lemma gen_notes_total :
+  Forall (fun t => has_key t (c_base_notes gen_cfg) = true) (c_notes_cloneable gen_cfg).
+Proof.
+  apply Forall_forall. apply forallb_forall. vm_compute. reflexivity.
+Qed.
+
+Lemma gen_sane_ok : gen_sane = true.
+Proof. vm_compute. reflexivity. Qed.
+
+(** with the generated tables: a slide can be added from every layout whose cloneable
+    placeholders avoid exactly the listed types *)
+Lemma gen_add_slide_total d l L :
+  nth_error (d_layouts d) l = Some L ->
+  Forall (fun p => In (ph_type p) all_ph_types /\ ~ In (ph_type p) py_missing_basename_slide)
+         (phs (cloneable gen_cfg (l_shapes L))) ->
+  exists d', add_slide gen_cfg d l = (d', Ok tt).
+Proof.
+  intros EL HF. apply add_slide_ok_iff. exists L. split; [exact EL|].
+  eapply Forall_impl; [|exact HF]. intros p [H1 H2]. apply gen_basename_total; assumption.
+Qed.
+
+Lemma wit_cloneable c t : memN t (c_latent c) = false -> cloneable c [wit_shape t] = [wit_shape t].
+Proof. intros H. unfold cloneable, has_type. cbn. unfold ph_type. cbn. rewrite H. reflexivity. Qed.
+
+(** whenever the slide base-name table misses a non-latent type, the mirror statement is
+    refuted by a layout holding one placeholder of that type: KeyError, no slide added, one
+    unlisted slide part left related to the presentation *)
+Lemma mirror_refuted_when_partial c t :
+  has_key t (c_base_slide c) = false -> memN t (c_latent c) = false ->
+  exists d', add_slide c (wit_deck t) 0 = (d', Err KeyErr) /\
+             d_slides d' = [] /\ length (d_orphans d') = 1%nat.
+Proof.
+  intros Hk Hl.
+  destruct (add_slide_keyerr_when_missing c (wit_deck t) 0 (mk_layout 0 [wit_shape t]) eq_refl) as [d' [H1 [H2 H3]]].
+  - cbn [l_shapes]. rewrite (wit_cloneable c t Hl). cbn. constructor. exact Hk.
+  - exists d'. auto.
+Qed.
+
+(** whenever the layout-to-master map misses a type that can be cloned, the inheritance
+    statement is refuted: the slide is added, and every dimension of its placeholder raises
+    KeyError *)
+Lemma inherit_refuted_when_partial c t :
+  has_key t (c_lmmap c) = false -> has_key t (c_base_slide c) = true -> memN t (c_latent c) = false ->
+  exists d' s sp, add_slide c (wit_deck t) 0 = (d', Ok tt) /\ d_slides d' = [s] /\ sl_shapes s = [sp] /\
+    forall a, slide_geom c d' s a sp = Err KeyErr.
+Proof.
+  intros Hm Hk Hl.
+  assert (Hok : exists d', add_slide c (wit_deck t) 0 = (d', Ok tt)).
+  { apply add_slide_ok_iff. exists (mk_layout 0 [wit_shape t]). split; [reflexivity|].
+    cbn [l_shapes]. rewrite (wit_cloneable c t Hl). cbn. constructor; [exact Hk | constructor]. }
+  destruct Hok as [d' H]. destruct (add_slide_inherit _ _ _ _ H) as [L [s [EL [Hs HF]]]].
+  cbn in EL. inversion EL; subst L. cbn [l_shapes] in HF. rewrite (wit_cloneable c t Hl) in HF.
+  inversion HF as [|lp sp ? tl Hg Htl]; subst. inversion Htl; subst.
+  exists d', s, sp. split; [exact H|]. split; [exact Hs|]. split; [symmetry; assumption|].
+  intros a. rewrite Hg. unfold first_with_idx. cbn.
+  apply (layout_eff_keyerr c a _ (wit_shape t) (mk_ph (Some t) None None None));
+    [destruct a; reflexivity | reflexivity | exact Hm].
+Qed.
+
+(** * Statements in the form used by props/C13.v *)
+Lemma clone_of_keys c : forall src t, Forall2 (clone_of c) src t ->
+  map key (phs t) = map key (phs src) /\ forallb is_ph t = true /\ length t = length src /\
+  Forall (fun sp => s_off sp = None /\ s_ext sp = None) t /\
+  Forall2 (fun lp sp => s_txbody sp = memN (sh_type lp) (c_txbody c)) src t.
+Proof.
+  induction 1 as [|lp sp src t Hc HF IH]; [cbn; auto|].
+  destruct IH as [I1 [I2 [I3 [I4 I5]]]].
+  destruct Hc as [p [Hlp [[p' [Hsp Hk]] [Ho [He Ht]]]]].
+  unfold phs in *. cbn [flat_map]. rewrite Hlp, Hsp. cbn [app map forallb length].
+  unfold is_ph at 1. rewrite Hsp, Hk, I1, I2, I3.
+  repeat split; auto. constructor; [|exact I5]. unfold sh_type. rewrite Hlp. exact Ht.
+Qed.
+
+Lemma mirror c d l d' :
+  add_slide c d l = (d', Ok tt) ->
+  exists L s, nth_error (d_layouts d) l = Some L /\ d_slides d' = d_slides d ++ [s] /\
+    let src := filter (fun x => negb (has_type (c_latent c) x)) (placeholders (l_shapes L)) in
+    map key (phs (sl_shapes s)) = map key (phs src) /\
+    forallb is_ph (sl_shapes s) = true /\
+    length (sl_shapes s) = length src /\
+    NoDup (map s_name (sl_shapes s)) /\ NoDup (map s_id (sl_shapes s)) /\
+    Forall (fun sp => s_off sp = None /\ s_ext sp = None) (sl_shapes s) /\
+    Forall2 (fun lp sp => s_txbody sp = memN (sh_type lp) (c_txbody c)) src (sl_shapes s).
+Proof.
+  intros H. destruct (add_slide_ok _ _ _ _ H) as [L [s [EL [-> [_ [_ [HF [HN HI]]]]]]]].
+  exists L, s. split; [exact EL|]. split; [reflexivity|]. cbn zeta.
+  rewrite <- cloneable_filter. destruct (clone_of_keys c _ _ HF) as [K1 [K2 [K3 [K4 K5]]]].
+  auto 10.
+Qed.
+
+Lemma notes_mirror c d s sl :
+  nth_error (d_slides d) s = Some sl -> sl_notes sl = None ->
+  Forall (fun t => has_key t (c_base_notes c) = true) (c_notes_cloneable c) ->
+  exists nt,
+    notes_slide c d s =
+      (set_slides (ensure_notes_master d)
+         (upd_nth s (fun x => mk_slide (sl_layout x) (sl_shapes x) (Some nt)) (d_slides d)), Ok tt) /\
+    let NM := the_notes_master d in
+    let src := filter (has_type (c_notes_cloneable c)) (placeholders NM) in
+    map key (phs nt) = map key (phs src) /\ forallb is_ph nt = true /\ length nt = length src /\
+    NoDup (map s_name nt) /\ NoDup (map s_id nt) /\
+    Forall2 (fun mp sp => forall a, notes_eff a NM sp = own a (first_with_type NM mp)) src nt.
+Proof.
+  intros Hs Hn Htot. destruct (notes_slide_new c d s sl Hs Hn Htot) as [nt [E [HF [HN [HI HG]]]]].
+  exists nt. split; [exact E|]. cbn zeta. rewrite <- notes_cloneable_filter.
+  destruct (clone_of_keys c _ _ HF) as [K1 [K2 [K3 _]]]. auto 10.
+Qed.
+
+(** duplicate idx values in one layout: the second clone inherits from the first layout
+    placeholder with that idx, not from the placeholder it was cloned from.  Witness: two
+    title placeholders without idx attribute at different positions. *)
+
+Lemma inherit_dup_idx_refuted :
+  exists d' L s lp sp,
+    add_slide gen_cfg dup_deck 0 = (d', Ok tt) /\ nth_error (d_layouts dup_deck) 0 = Some L /\
+    d_slides d' = [s] /\
+    nth_error (cloneable gen_cfg (l_shapes L)) 1 = Some lp /\ nth_error (sl_shapes s) 1 = Some sp /\
+    clone_of gen_cfg lp sp /\
+    slide_geom gen_cfg d' s ALeft sp = Ok (Some 10%Z) /\
+    layout_eff gen_cfg ALeft (master_tree dup_deck 0) lp = Ok (Some 50%Z).
+Proof.
+  destruct (add_slide gen_cfg dup_deck 0) as [d' r] eqn:E.
+  vm_compute in E. inversion E; subst d' r; clear E.
+  do 5 eexists. split; [reflexivity|]. split; [reflexivity|]. split; [reflexivity|].
+  split; [vm_compute; reflexivity|]. split; [vm_compute; reflexivity|].
+  split; [|split; vm_compute; reflexivity].
+  eexists. split; [reflexivity|]. repeat split; try reflexivity.
+  eexists. split; reflexivity.
+Qed.
+
+Lemma set_own c a v M Ls s s' :
+  set_attr a v s = (s', Ok tt) ->
+  slide_eff c a M Ls s' = Ok (Some v) /\ s_ph s' = s_ph s /\ s_name s' = s_name s /\
+  (forall b, same_pair a b = false -> own b s' = own b s) /\
+  (forall b, same_pair a b = true -> b <> a ->
+     own b s' = Some (match own b s with Some x => x | None => 0%Z end)).
+Proof.
+  intros H. destruct (set_attr_ok a v s s' H) as [_ [H1 [H2 [_ [H3 [H4 H5]]]]]].
+  split; [apply slide_eff_own; exact H1 | auto].
+Qed.
+
+Lemma partial_maps {B} (tbl : list (N * B)) t :
+  In t all_ph_types -> (dict_get t tbl = Err KeyErr <-> In t (missing tbl)).
+Proof. intros Hin. rewrite dict_get_keyerr_iff, missing_spec. tauto. Qed.
+
+Lemma placeholders_view t :
+  Permutation (slide_placeholders t) (placeholders t) /\ Sorted idx_le (slide_placeholders t) /\
+  (Sorted idx_le (placeholders t) -> slide_placeholders t = placeholders t).
+Proof.
+  split; [apply slide_placeholders_perm|]. split; [apply slide_placeholders_sorted|].
+  apply slide_placeholders_id.
+Qed.
